@@ -1,7 +1,11 @@
 (* C12 — template expansion: escape round-trips for every valid UTF-8 string and every captures,
    for both expanders; escape borrows iff nothing needed escaping; check is sound.
-   The remaining clause (the step sequence follows the documented $-syntax) is carried by the
-   correspondence check against the real expander, not by a theorem (see DESIGN.md). *)
+   The documented $-syntax is pinned as laws of the step sequence of the default expander:
+   anything that is not `$` is copied verbatim character by character, `$$` is one literal `$`,
+   `${name}` and `$name` (the LONGEST run of identifier characters) are a reference to `name`.
+   (Identifiers are taken over ASCII letters, digits and `_`; the full Unicode alphanumeric table is
+   not modelled.)  The model as a whole is tied to the real expander by the exhaustive
+   short-template comparison. *)
 From FR Require Import Base Utf8 Utf8Facts Sem Api Expand ExpandProofs.
 
 Theorem C12_escape_roundtrip_default : forall s c, valid_text s ->
@@ -19,6 +23,41 @@ Proof. exact escape_borrow. Qed.
 Theorem C12_check_sound : forall x template names n,
   check x template names n = None -> Forall (step_ok names n) (steps x template).
 Proof. exact check_sound. Qed.
+
+
+(* ---- the documented syntax ---- *)
+(* anything else is copied verbatim, character by character, in front of whatever follows *)
+Theorem C12_verbatim : forall x, sub_char x < 128 -> forall cs rest, valid_chars cs ->
+  Forall (fun ch => match ch with b :: _ => b <> sub_char x | [] => True end) cs ->
+  steps x (concat cs ++ rest) = map StChar cs ++ steps x rest.
+Proof. intros x Hx. apply steps_verbatim_prefix. exact Hx. Qed.
+
+(* ... so a template without the substitution character expands to itself *)
+Theorem C12_no_reference_identity : forall x, sub_char x < 128 -> forall cs c, valid_chars cs ->
+  Forall (fun ch => match ch with b :: _ => b <> sub_char x | [] => True end) cs ->
+  expansion x (concat cs) c = concat cs.
+Proof. intros x Hx. apply expansion_verbatim. exact Hx. Qed.
+
+(* `$$` (resp. `\\`) is one literal substitution character *)
+Theorem C12_doubled : forall x, sub_char x < 128 -> forall rest,
+  steps x (sub_char x :: sub_char x :: rest) = StChar [sub_char x] :: steps x rest.
+Proof. intros x Hx. apply steps_doubled. exact Hx. Qed.
+
+(* `${name}` refers to name *)
+Theorem C12_braced : forall name rest, name <> [] -> Forall idb name ->
+  steps expander_default (36 :: 123 :: name ++ 125 :: rest) = StName name :: steps expander_default rest.
+Proof. exact steps_braced. Qed.
+
+(* `$name` takes the longest run of identifier characters: it stops only at the end of the template
+   or at a character that is not an identifier character *)
+Theorem C12_bare_longest : forall name rest, name <> [] -> Forall idb name ->
+  (match rest with [] => True | b :: _ => b < 128 /\ is_id_cp b = false end) ->
+  steps expander_default (36 :: name ++ rest) = StName name :: steps expander_default rest.
+Proof. exact steps_bare. Qed.
+
+(* what a reference inserts: the group's text, by name first, by number if the name is a number
+   and no group has that name; nothing if the group is absent or did not participate *)
+Check expand_step.
 
 Check C12_escape_roundtrip_default : forall s c, valid_text s ->
   expansion expander_default (fst (x_escape expander_default s)) c = s.
@@ -46,3 +85,8 @@ Print Assumptions C12_escape_roundtrip_default.
 Print Assumptions C12_escape_roundtrip_python.
 Print Assumptions C12_escape_borrow.
 Print Assumptions C12_check_sound.
+Print Assumptions C12_verbatim.
+Print Assumptions C12_no_reference_identity.
+Print Assumptions C12_doubled.
+Print Assumptions C12_braced.
+Print Assumptions C12_bare_longest.
